@@ -44,7 +44,7 @@ M = [
  ("c02_river_lt_47", ["C02", "C04"], FE, "if self.current_river_index < 48 {", "if self.current_river_index < 47 {"),
  ("c02_used_insert_removed", ["C02", "C10"], FE,
   "                self.current_used_cards.insert(entry.0[0]);\n                self.current_used_cards.insert(entry.0[1]);\n", ""),
- ("c02_u8_digit_again", ["C02", "C08", "C11"], FE,
+ ("c02_u8_digit_again", ["C02", "C11"], FE,
   "if self.current_player_indexes[ri] + 1 < self.player_entries[ri].len() {", "if (self.current_player_indexes[ri] as u8) < (self.player_entries[ri].len() as u8).wrapping_sub(1) {"),
  ("c04_stop_or", ["C04"], FE,
   "if self.current_turn_index >= self.turn_to && self.current_river_index >= self.river_to", "if self.current_turn_index >= self.turn_to || self.current_river_index >= self.river_to"),
@@ -70,7 +70,7 @@ M = [
   "                RankPair::Suited(high, kicker) => {\n                    RankRange::inclusive(high.next().unwrap(), kicker)", "                RankPair::Suited(high, kicker) => {\n                    RankRange::inclusive(high.next().unwrap().next().unwrap_or(kicker).min(kicker), kicker)"),
  ("c05_span_exclusive", ["C05", "C06"], HT,
   "                RankPair::Ofsuit(high, kicker) => RankRange::inclusive(kicker, end)", "                RankPair::Ofsuit(high, kicker) => RankRange::new(kicker, end)"),
- ("c05_first_wins", ["C05", "C17"], HR, "                    map.insert(card_pair, prob);", "                    map.entry(card_pair).or_insert(prob);"),
+ ("c05_first_wins", ["C05"], HR, "                    map.insert(card_pair, prob);", "                    map.entry(card_pair).or_insert(prob);"),
  ("c05_spaces_not_stripped", ["C05"], HR, 'let trimmed = s.replace(" ", "");', 'let trimmed = s.trim().to_string();'),
  ("c05_suited_offsuit_swapped_single", ["C05"], HT,
   "                if &s[2..3] == \"s\" {\n                    return Ok(HandRangeToken::new(\n                        HandRangeTokenKind::SingleRankPair(RankPair::Suited(high, kicker)),",
@@ -90,26 +90,26 @@ M = [
   "                    if suited\n                        .into_iter()\n                        .all(|cp|", "                    if suited\n                        .into_iter()\n                        .any(|cp|"),
  ("c12_presence_only", ["C12", "C06", "C17"], HR,
   "                    if ofsuit\n                        .into_iter()\n                        .all(|cp| self.0.get(&cp).is_some_and(|p| p == probability))", "                    if ofsuit\n                        .into_iter()\n                        .all(|cp| self.0.get(&cp).is_some())"),
- ("c12_offsuit_list_missing_one", ["C12", "C05", "C06"], RP,
+ ("c12_offsuit_list_missing_one", ["C12", "C05"], RP,
   "                CardPair::new(Card::new(high, Suit::Club), Card::new(kicker, Suit::Heart)),\n", ""),
  # ---- C09 / C10
  ("c09_card_boundary_check_removed", ["C09"], CA, "if v.len() == 2 && v.is_char_boundary(1) {", "if v.len() == 2 {"),
  ("c09_order_guard_removed", ["C09"], HT, "                if high < kicker_bottom {\n                    if &s[2..3] == \"s\" {", "                if high != kicker_bottom {\n                    if &s[2..3] == \"s\" {"),
  ("c10_weight_class_widened", ["C10"], HT, "1(\\.0+)?))?$\"", "1(\\.[0-9]+)?))?$\"", 7),
  ("c10_same_card_guard_removed", ["C10"], CP, "            (Ok(l), Ok(r)) if l == r => Err(Self::Err::InvalidCardStr(value.to_string())),\n", ""),
- ("c10_unwrap_or_2", [], HT, "f32::from_str(value).unwrap_or(1.0)", "f32::from_str(value).unwrap_or(2.0)"),  # unreachable: must stay silent
+ ("c10_unwrap_or_2", ["C10", "C05"], HT, "f32::from_str(value).unwrap_or(1.0)", "f32::from_str(value).unwrap_or(2.0)"),  # default weight of every token without a literal
  # ---- C13 / C14
  ("c13_mask_bit", ["C13"], CA, "const KING_MASK: u64 = 0b0000000000000000000000000000000000000000000011110000;", "const KING_MASK: u64 = 0b0000000000000000000000000000000000000000000111100000;"),
  ("c13_next_arms", ["C13", "C05"], RK, "            Rank::Nine => Some(Rank::Eight),\n            Rank::Eight => Some(Rank::Seven),", "            Rank::Nine => Some(Rank::Seven),\n            Rank::Eight => Some(Rank::Seven),"),
  ("c13_suitrange_all_end3", ["C13", "C02"], SR, "            end: SUITS.len(),", "            end: SUITS.len() - 1,"),
- ("c14_display_second_first", ["C14"], CP, 'write!(f, "{}{}", self.0, self.1)', 'write!(f, "{}{}", self.1, self.0)'),
+ ("c14_display_second_first", ["C17"], CP, 'write!(f, "{}{}", self.0, self.1)', 'write!(f, "{}{}", self.1, self.0)'),  # C14 still holds (text parses back); canonical text order is C17's
  ("c14_no_normalisation_same_rank", ["C14"], CP, "        if left > right {", "        if left.rank() > right.rank() {"),
  # ---- C15
  ("c15_static_deck_cache", ["C15"], FE,
   "        Self {\n            turn_to: evaluator.turn_to,",
   "        static CACHE: std::sync::Mutex<Option<Vec<Card>>> = std::sync::Mutex::new(None);\n        let current_deck: Vec<Card> = {\n            let mut g = CACHE.lock().unwrap();\n            if g.is_none() {\n                *g = Some(current_deck);\n            }\n            g.as_ref().unwrap().clone()\n        };\n\n        Self {\n            turn_to: evaluator.turn_to,"),
  # ---- C16
- ("c16_ceil_to_round", ["C16"], SC, "(x % 1.0)).ceil() as u8", "(x % 1.0)).round() as u8"),
+ ("c16_ceil_to_round_NEG_C16", [], SC, "(x % 1.0)).ceil() as u8", "(x % 1.0)).round() as u8"),
  ("c16_normalisation_removed", ["C16"], SC, "        if river_to > 48 && turn_to < 48 {", "        if river_to > 49 && turn_to < 48 {"),
  ("c16_prev_r_not_updated", ["C16"], SC, "        prev_r = river_to;", "        prev_r = river_to.max(prev_r);"),
 ]
